@@ -55,6 +55,26 @@ def gen(rng, n, tier):
             elif r < 0.96: ops.append(["sub", rng.randrange(nv), rng.randrange(nv)]); nv += 1
             else: ops.append(["arr", rng.randrange(nv)])
         if adaptive: ops = [(["empty"] if o[0] == "bare" else o) for o in ops]
+        # normalisation in place = division by the total weight, which is known here because every value lies inside the bins
+        W = []; ops2 = []
+        for o in ops:
+            k = o[0]
+            if k == "new": W.append(sum((w for v, w in o[1]), Fr(0)))
+            elif k == "empty": W.append(Fr(0))
+            elif k in ("bare", "sub"): W.append(None)
+            elif k == "fill" and W[o[1]] is not None: W[o[1]] += o[3]
+            elif k == "fill_n" and W[o[1]] is not None: W[o[1]] += sum((w for v, w in o[2]), Fr(0))
+            elif k == "add": W.append(None if W[o[1]] is None or W[o[2]] is None else W[o[1]] + W[o[2]])
+            elif k == "iadd": W[o[1]] = None if W[o[1]] is None or W[o[2]] is None else W[o[1]] + W[o[2]]
+            elif k == "copy": W.append(W[o[1]])
+            elif k == "mul" and W[o[1]] is not None: W[o[1]] *= o[2]
+            elif k == "div" and W[o[1]] is not None: W[o[1]] /= o[2]
+            elif k == "arr": W[o[1]] = None
+            ops2.append(o)
+            live = [x for x, w_ in enumerate(W) if w_ is not None and w_ > 0]
+            if live and rng.random() < 0.08:
+                x = rng.choice(live); ops2.append(["normalize", x, W[x]]); W[x] = Fr(1)
+        ops = ops2
         if nv and rng.random() < 0.12 and not adaptive:      # subtraction under free arithmetics may leave negative contents: last operation only
             ops.append(["subf", rng.randrange(nv), rng.randrange(nv)])
         # impl-side spelling of an operation (the model sees the plain one): an empty histogram obtained as
@@ -79,7 +99,8 @@ def gen(rng, n, tier):
                 return o
             ops = [sc(o) for o in ops]
             calls = [c.replace("fill:int8", "fill") for c in calls]
-        yield [["bucket", "len%d/%s%s%s" % (len(ops), "adaptive/" if adaptive else "", "tiny/" if scale != 1 else "", "+".join(sorted(set(o[0] for o in ops))))], ["ops", ops], ["eps", Fr(0)],
+        yield [["bucket", "len%d/%s%s%s" % (len(ops), "adaptive/" if adaptive else "", "tiny/" if scale != 1 else "", "+".join(sorted(set(o[0] for o in ops))))], ["ops", ops],
+               ["eps", Fr(1, 10 ** 12) if any(o[0] == "normalize" for o in ops) else Fr(0)],      # a division by a total is not exact in binary64
                ["adaptive", "T" if adaptive else "F"], ["calls", calls], ["scale", scale]]
 
 def impl(case):
@@ -122,6 +143,8 @@ def impl(case):
             elif k == "add": env.append(env[op[1]] + env[op[2]]); x = len(env) - 1
             elif k == "iadd":
                 x = op[1]; other = env[op[2]] if op[2] != x else env[x].copy(); env[x] += other
+            elif k == "normalize":
+                x = op[1]; env[x].normalize(inplace=True)
             elif k == "badiadd":
                 # an in-place addition that must be refused: bins elsewhere (not adaptive), or an operand of another dimension
                 x = op[1]
